@@ -7,6 +7,7 @@ import (
 	"encoding/json"
 	"errors"
 	"fmt"
+	"strconv"
 
 	stun "github.com/pion/stun/v3"
 
@@ -54,6 +55,73 @@ func c04LongTerm(cr []string) (string, string) {
 	}
 	if !bytes.Equal(got, want[:]) {
 		return "long-term-key", fmt.Sprintf("NewLongTermIntegrity(%q,%q,%q) = %x, MD5(user:realm:password) = %x", cr[0], cr[1], cr[2], []byte(got), want)
+	}
+	// the key is the caller's: wiping it after use (what one does with a secret) does not change what the same
+	// credentials give next time
+	for i := range got {
+		got[i] = 0
+	}
+	var again stun.MessageIntegrity
+	if p := catch(func() { again = stun.NewLongTermIntegrity(cr[0], cr[1], cr[2]) }); p != "" {
+		return "long-term-key", p
+	}
+	if !bytes.Equal(again, want[:]) {
+		return "long-term-key/after-the-caller-wiped-an-earlier-result", fmt.Sprintf("NewLongTermIntegrity(%q,%q,%q) a second time, after the caller zeroed the first result = %x, MD5(user:realm:password) = %x", cr[0], cr[1], cr[2], []byte(again), want)
+	}
+	return "", ""
+}
+
+// c04GuardFollows: whether AddTo signs or refuses depends on the attributes the message has NOW. mode 0: the message
+// was decoded with FINGERPRINT, the caller strips it from the attribute list and re-encodes (a relay that re-signs):
+// AddTo signs, with the RFC value. mode 1: decoded without FINGERPRINT, the caller appends one to the list and
+// re-encodes: AddTo refuses and leaves the message alone.
+func c04GuardFollows(lay []uint16, mode int, key []byte) (string, string) {
+	src := new(stun.Message)
+	src.TransactionID = [12]byte{4, 4, 4}
+	src.WriteHeader()
+	for i, t := range lay {
+		if t == 0x8028 && mode == 1 {
+			continue
+		}
+		src.Add(stun.AttrType(t), c04Value(t, 4, i))
+	}
+	if mode == 0 {
+		src.Add(stun.AttrFingerprint, []byte{1, 2, 3, 4}) // (at the end as well)
+	}
+	m := new(stun.Message)
+	if _, err := m.Write(src.Raw); err != nil {
+		return "harness", err.Error()
+	}
+	var err error
+	if p := catch(func() {
+		if mode == 0 {
+			kept := m.Attributes[:0]
+			for _, a := range m.Attributes {
+				if a.Type != stun.AttrFingerprint {
+					kept = append(kept, a)
+				}
+			}
+			m.Attributes = kept
+		} else {
+			m.Attributes = append(m.Attributes, stun.RawAttribute{Type: stun.AttrFingerprint, Length: 4, Value: []byte{9, 9, 9, 9}})
+		}
+		m.Encode()
+		err = stun.MessageIntegrity(key).AddTo(m)
+	}); p != "" {
+		return "guard-does-not-follow-attributes", p
+	}
+	if mode == 1 {
+		if !errors.Is(err, stun.ErrFingerprintBeforeIntegrity) {
+			return "guard-does-not-follow-attributes", fmt.Sprintf("attributes %04x decoded, FINGERPRINT appended to m.Attributes by hand, Encode: MessageIntegrity.AddTo = %v, want the refusal", lay, err)
+		}
+		return "", ""
+	}
+	if err != nil {
+		return "guard-does-not-follow-attributes", fmt.Sprintf("attributes %04x decoded, every FINGERPRINT removed from m.Attributes, Encode: the message has no FINGERPRINT, yet MessageIntegrity.AddTo = %v", lay, err)
+	}
+	raw := m.Raw
+	if len(raw) < 44 || !bytes.Equal(raw[len(raw)-20:], ref.HMACSHA1(key, raw[:len(raw)-24])) {
+		return "guard-does-not-follow-attributes", fmt.Sprintf("attributes %04x decoded, FINGERPRINT stripped, Encode, AddTo: the MAC is not the RFC value: %x", lay, clip(raw))
 	}
 	return "", ""
 }
@@ -445,6 +513,17 @@ func init() {
 					c.Outcome("refused-after-fingerprint")
 				}
 			}
+			if c.Shard == 0 {
+				for li, lay := range [][]uint16{{0x8028}, {0x0006, 0x8028}, {0x8028, 0x8022}, {0x0006, 0x8028, 0x8022, 0x0014}, {0x8028, 0x8028}, {0x0006}, {}} {
+					for mode := 0; mode < 2; mode++ {
+						c.Eval(1)
+						if k, d := c04GuardFollows(lay, mode, c04Keys[3]); k != "" {
+							c.Violation(k, d, c04Case{Kind: "guard", Cred: []string{fmt.Sprint(li), fmt.Sprint(mode)}, Key: hex.EncodeToString(c04Keys[3])})
+						}
+						c.Outcome("guard-follows-attributes")
+					}
+				}
+			}
 			// the caller's key buffer is rewritten in place between two operations: every operation must use the key
 			// bytes it is given at that moment
 			if c.Shard == 0 {
@@ -493,6 +572,15 @@ func init() {
 			case "shortterm":
 				if got := stun.NewShortTermIntegrity(k.Cred[0]); !bytes.Equal(got, []byte(k.Cred[0])) {
 					c.Violation("short-term-key", fmt.Sprintf("NewShortTermIntegrity(password of %d bytes) is a %d-byte key", len(k.Cred[0]), len(got)), k)
+				}
+				return
+			case "guard":
+				li, _ := strconv.Atoi(k.Cred[0])
+				mode, _ := strconv.Atoi(k.Cred[1])
+				kb, _ := hex.DecodeString(k.Key)
+				lay := [][]uint16{{0x8028}, {0x0006, 0x8028}, {0x8028, 0x8022}, {0x0006, 0x8028, 0x8022, 0x0014}, {0x8028, 0x8028}, {0x0006}, {}}[li]
+				if key, d := c04GuardFollows(lay, mode, kb); key != "" {
+					c.Violation(key, d, k)
 				}
 				return
 			case "refuse":
